@@ -8,6 +8,9 @@
 // from the first filter looks the same before and after the second filter ran.
 // Family 6 (big.go) does the same with containers of more than 50 elements that the program only reads.
 // Family 7 (meth.go) does the same with struct values whose pointer-receiver methods have side effects.
+// Family 8 (emb.go) does the same with structs passed by pointer that embed nil pointers (promoted fields).
+// Family 9 (cfg.go) renders a subset of all of these on engines in debug / development mode, cache off,
+// auto-reload, sandbox, strict variables, through Engine.Render, RenderTo, Template.Render, RenderTo, ParseTemplate.
 package main
 
 import (
@@ -298,6 +301,8 @@ type program struct {
 	touches string            // what the program is about (class label)
 	big     *bigSpec          // family 6: the context is one big container (big.go) instead of mkContext()
 	meth    bool              // family 7: the context holds struct values with pointer-receiver methods (meth.go)
+	emb     *embSpec          // family 8: the context holds structs by pointer that embed nil pointers (emb.go)
+	cfg     *cfgSpec          // family 9: engine configuration and entry point (cfg.go); nil = twig.New() and Engine.Render
 }
 
 var filters = []string{"default", "escape", "e", "upper", "lower", "trim", "raw", "length", "count", "join", "split", "date", "url_encode", "capitalize", "title",
@@ -353,13 +358,23 @@ func programs(thorough bool, add func(program)) {
 			}
 		}
 	}
-	// 3. names that collide with the caller's keys: set, loop variables, include, macro parameters, functions
+	scopePrograms(valueExprs, add)
+	collisionPrograms(ctxKeys, valueExprs, add)
+	bigPrograms(thorough, add)
+	methPrograms(thorough, add)
+	embPrograms(thorough, add)
+	cfgPrograms(thorough, add)
+	chainPrograms(thorough, add)
+}
+
+// 3. names that collide with the caller's keys: set, loop variables, include, macro parameters, functions
+func scopePrograms(vs []string, add func(program)) {
 	inc := map[string]string{
 		"inc":  "{% set xs = 0 %}{% set m = 1 %}{% set q = 2 %}{% set st = 3 %}{{ q|sort }}{{ xs }}",
 		"inc2": "{% for x in xs %}{% set x = 1 %}{% endfor %}{% set xs = xs|merge([1]) %}{{ xs|sort|join(',') }}",
 		"lib":  "{% macro mm(p) %}{% set p = p|merge([1]) %}{{ p|sort|join(',') }}{% set xs = 1 %}{% endmacro %}{% macro ww(xs, m) %}{% set xs = 2 %}{% set m = 3 %}{{ xs }}{% endmacro %}",
 	}
-	for _, v := range valueExprs {
+	for _, v := range vs {
 		root := strings.FieldsFunc(v, func(r rune) bool { return r == '.' || r == '[' })[0]
 		for i, src := range []string{
 			"{% set " + root + " = 5 %}{{ " + root + " }}",
@@ -394,10 +409,6 @@ func programs(thorough bool, add func(program)) {
 			add(program{key: fmt.Sprintf("scope/%d/%s", i, v), family: "scope", touches: "scope" + strconv.Itoa(i), main: src, others: inc})
 		}
 	}
-	collisionPrograms(add)
-	bigPrograms(thorough, add)
-	methPrograms(thorough, add)
-	chainPrograms(thorough, add)
 }
 
 // 4. a template-side NAME that collides with a caller's key: import alias, from-import alias, set, loop
@@ -410,8 +421,8 @@ var ctxKeys = []string{"xs", "ss", "is", "fs", "i64", "ids", "names", "lmt", "at
 
 const clib = "{% macro mm(p) %}{{ p }}{% endmacro %}{% macro ww(a, b) %}{{ a }}{{ b }}{% endmacro %}"
 
-func collisionPrograms(add func(program)) {
-	for _, k := range ctxKeys {
+func collisionPrograms(keys, vs []string, add func(program)) {
+	for _, k := range keys {
 		others := map[string]string{
 			"clib":  clib,
 			"klib":  "{% macro " + k + "(p) %}{% if p is iterable %}i{% endif %}x{% endmacro %}",
@@ -462,7 +473,7 @@ func collisionPrograms(add func(program)) {
 		"{% import 'clib' as q %}{% import 'clib' as q %}{{ q.ww(1, 2) }}",
 		"{% for x in [1, 2] %}{% import 'clib' as q %}{{ q.mm(x) }}{% endfor %}",
 	}
-	for _, v := range valueExprs {
+	for _, v := range vs {
 		for ri, r := range rebind {
 			others := map[string]string{"clib": clib, "reb": r}
 			for bi, src := range []string{
@@ -584,17 +595,34 @@ func pristine() string {
 
 func runProgram(p program) *vlib.Outcome {
 	o := &vlib.Outcome{Counters: map[string]int64{"renders": 2, "programs_" + p.family: 1}}
-	e := twig.New()
-	for n, src := range p.others {
-		if err := e.RegisterString(n, src); err != nil {
-			o.Violation = "helper template does not parse: " + err.Error()
+	var render func(ctx map[string]interface{}) (string, error)
+	if p.cfg != nil {
+		r, cleanup, parseErr, harnessErr := cfgRenderer(p)
+		defer cleanup()
+		if harnessErr != nil {
+			o.Violation = "harness: " + harnessErr.Error()
 			return o
 		}
-	}
-	if err := e.RegisterString("t", p.main); err != nil {
-		o.Class = p.family + "/parse-error"
-		o.Counters["not_a_program_"+p.family] = 1
-		return o // not a program of the language: nothing rendered, nothing to check
+		if parseErr != nil {
+			o.Class = p.family + "/parse-error"
+			o.Counters["not_a_program_"+p.family] = 1
+			return o
+		}
+		render = r
+	} else {
+		e := twig.New()
+		for n, src := range p.others {
+			if err := e.RegisterString(n, src); err != nil {
+				o.Violation = "helper template does not parse: " + err.Error()
+				return o
+			}
+		}
+		if err := e.RegisterString("t", p.main); err != nil {
+			o.Class = p.family + "/parse-error"
+			o.Counters["not_a_program_"+p.family] = 1
+			return o // not a program of the language: nothing rendered, nothing to check
+		}
+		render = func(ctx map[string]interface{}) (string, error) { return e.Render("t", ctx) }
 	}
 	var ctx map[string]interface{}
 	var before string
@@ -602,14 +630,16 @@ func runProgram(p program) *vlib.Outcome {
 		ctx, before = mkBigContext(*p.big), pristineBig(*p.big)
 	} else if p.meth {
 		ctx, before = mkMethContext(), pristineMeth()
+	} else if p.emb != nil {
+		ctx, before = mkEmbContext(), pristineEmb()
 	} else {
 		ctx, before = mkContext(), pristine()
 	}
 	ptrCalls, valCalls = 0, 0
-	out1, err1 := e.Render("t", ctx)
+	out1, err1 := render(ctx)
 	ptr1, val1 := ptrCalls, valCalls
 	after1 := snapshot(ctx)
-	out2, err2 := e.Render("t", ctx)
+	out2, err2 := render(ctx)
 	after2 := snapshot(ctx)
 	res := "ok"
 	if err1 != nil {
@@ -630,28 +660,56 @@ func runProgram(p program) *vlib.Outcome {
 			o.Class += "/no-method"
 		}
 	}
+	if p.emb != nil { // non-trivial: the field the program reads lies behind an embedded pointer that is nil
+		behind := embBehindNil(*p.emb)
+		o.Nontrivial = err1 == nil && behind
+		if behind {
+			o.Class += "/behind-nil"
+			o.Counters["programs_reading_a_field_behind_a_nil_embedded_pointer"] = 1
+		} else {
+			o.Class += "/present"
+		}
+	}
 	detail := map[string]interface{}{"template": p.main, "others": p.others}
+	if p.cfg != nil {
+		detail["engine"], detail["entry"] = p.cfg.config, p.cfg.entry
+	}
 	o.Detail = detail
+	tq := strconv.Quote(p.main)
+	if p.cfg != nil {
+		tq += " (engine configuration " + p.cfg.config + ", rendered through " + p.cfg.entry + ")"
+	}
 	if after1 != before {
-		o.Violation = fmt.Sprintf("template %q modified the caller's data: %s", p.main, firstDiff(before, after1))
+		o.Violation = fmt.Sprintf("template %s modified the caller's data: %s", tq, firstDiff(before, after1))
 		return o
 	}
 	if after2 != before {
-		o.Violation = fmt.Sprintf("the second render of template %q modified the caller's data: %s", p.main, firstDiff(before, after2))
+		o.Violation = fmt.Sprintf("the second render of template %s modified the caller's data: %s", tq, firstDiff(before, after2))
 		return o
 	}
 	if (err1 == nil) != (err2 == nil) {
-		o.Violation = fmt.Sprintf("template %q: two renders with the same data disagree: first error %v, second error %v", p.main, err1, err2)
+		o.Violation = fmt.Sprintf("template %s: two renders with the same data disagree: first error %v, second error %v", tq, err1, err2)
 		return o
 	}
 	if err1 == nil && !p.noOut && out1 != out2 {
-		o.Violation = fmt.Sprintf("template %q: two renders with the same data give %q and %q", p.main, out1, out2)
+		o.Violation = fmt.Sprintf("template %s: two renders with the same data give %q and %q", tq, out1, out2)
 		return o
+	}
+	if p.cfg != nil { // the caller's map must not have been kept by the engine: an unrelated render later on must not show in it
+		if err := foreignRender(); err != nil {
+			o.Violation = "harness: the unrelated render failed: " + err.Error()
+			return o
+		}
+		o.Counters["renders"] += 3
+		if after3 := snapshot(ctx); after3 != before {
+			o.Violation = fmt.Sprintf("after template %s was rendered, an unrelated render on another engine modified the caller's data: %s", tq, firstDiff(before, after3))
+			return o
+		}
 	}
 	if p.marks && err1 == nil {
 		parts := strings.Split(out1, "#")
 		if len(parts) >= 2 && parts[0] != parts[1] {
-			o.Violation = fmt.Sprintf("template %q: the value obtained from the first filter was changed by the second: %s before, %s after", p.main, parts[0], parts[1])
+			o.Violation = fmt.Sprintf("template %s: the value obtained from the first filter was changed by the second: %s before, %s after", tq, parts[0], parts[1])
 			return o
 		}
 	}
@@ -662,7 +720,7 @@ func main() {
 	vlib.Main(vlib.Spec{
 		ID:    "C18",
 		Level: "exploration",
-		Rule: "every program of seven families — (1) each of the 31 built-in filters x 17 (thorough 38) argument shapes x 41 value expressions, printed and assigned-then-merged/sorted/reversed; " +
+		Rule: "every program of nine families — (1) each of the 31 built-in filters x 17 (thorough 38) argument shapes x 41 value expressions, printed and assigned-then-merged/sorted/reversed; " +
 			"(2) every ordered pair of 15 x 14 (thorough 26 x 26) collection filters on each value expression, the intermediate value observed before and after the second filter; " +
 			"(3) 28 scope programs per value expression (set / loop variable / include with, only / macro parameter / import named like a caller's key, functions merge, max, min, cycle, slice window then merge); " +
 			"(4) name collisions: 27 programs per top-level key K of the context in which K is an import alias, from-import alias, imported macro name, set target, loop key/value variable, macro name, macro parameter, block name (also through extends) or include-with key, " +
@@ -674,13 +732,19 @@ func main() {
 			"(7) struct VALUES with pointer-receiver methods that count, append and flag (Touch, Add, Mark, Sub.Inc, Order.Visit): 20 container expressions ([]Line, named slice, array, pointer to array / slice, map[string]Line, map[int]Line, untyped list and map, and those as fields of a struct value, of a pointed-to struct and of a map element) " +
 			"x 31 (thorough 110) access patterns (for value / key-value / twice / nested / with set / else / apply, index 0, 1, 'k', attribute, first, last, cycle, held in set / list / hash literal, macro and imported macro parameter, include with (only), element passed to macro / include, through 8 (17) filters, thorough through every pair of 8) " +
 			"x 10 bodies (each of Touch, Add, Mark, value-receiver Bump, Label, field Name; filters on lists a method returns; nested loop over Subs; method results in conditions and as filter / function arguments; in for and index 0 (thorough: everywhere) also all 36 ordered pairs of the six), " +
-			"11 single struct-value expressions (in the context, field of a struct value / of a pointed-to struct, map element) x 9 patterns x 46 bodies, 4 containers of Order values x 7 programs x 10 bodies, 7 programs on Order values and plain reads, and the caller's own pointers (*Line, []*Line) with value-receiver methods and fields only — " +
+			"11 single struct-value expressions (in the context, field of a struct value / of a pointed-to struct, map element) x 9 patterns x 46 bodies, 4 containers of Order values x 7 programs x 10 bodies, 7 programs on Order values and plain reads, and the caller's own pointers (*Line, []*Line) with value-receiver methods and fields only; " +
+			"(8) structs passed BY POINTER that embed a NIL pointer to an exported struct: Customer{Name; *Addr; *Audit}, Account{ID; Contact{Phone; *Geo}; *Audit} (embedded pointer inside an embedded value), Deep{Label; *Customer} (two levels), each with every combination of set / unset parts — 33 expressions of one struct (context entry, untyped / typed map element, field of a pointed-to struct and of a struct value, explicit embedded name, pointer to pointer, and struct VALUES as controls) x 4 (thorough 9) patterns (direct, set, macro / _self, include with (only); list, hash, loop, default / raw, imported macro) " +
+			"and 10 containers ([]*T with spare capacity, map[string]*T, untyped lists, []T and *[]T controls) x 4 (thorough 10) patterns (for, key-value for, index 0, first / last; index by key, twice, through reverse / slice / default / merge, macro, include, element to macro / include) x 9 fields per type (own, promoted through a value, through one and through two pointers, the embedded parts themselves, a missing one) x 13 bodies (print, if, is defined, default, for … else, set, null / empty / iterable tests, ~ == length not and, twice, json_encode of the struct and the field, list / hash literal / filter / function argument, sub-attribute, include with); " +
+			"(9) ENGINE CONFIGURATION x ENTRY POINT: a subset of families 1, 3, 4, 7, 8 (quick 1 048 programs: 24 values x 14 collection filters printed-assigned-merged-sorted-reversed, the 28 scope programs on 6 values, the 27 collision programs on 2 keys, 5 x 6 bindings on 2 values, 250 method programs, 180 embedded-pointer programs; thorough 7 010) on engines set up as plain, SetDebug(true), SetDevelopmentMode(true), SetCache(false) with a loader, SetAutoReload(true) with template files, EnableSandbox(allow-all policy) with the program inside `include … sandboxed`, and all of these together with strict variables " +
+			"(thorough: also debug at the verbose level, the default sandbox policy, strict variables alone, debug + cache off, development mode from files, a cached array loader), rendered through Engine.Render, Engine.RenderTo and Template.Render of the loaded template (thorough: also Template.RenderTo and a template from Engine.ParseTemplate); there the caller's data is compared a third time after an unrelated render on another engine — " +
 			"rendered twice on a fresh engine with a fresh context of slices with sentinel-filled spare capacity, arrays, typed/untyped maps, structs, pointers nested two deep; " +
-			"non-trivial = the program renders without error (the filters really ran on the data); in family 7: and the engine called at least one method of the caller's types",
+			"non-trivial = the program renders without error (the filters really ran on the data); in family 7: and the engine called at least one method of the caller's types; in family 8: and the field read lies behind an embedded pointer that is nil (decided on the Go values by reflection)",
 		Assumptions: []string{
 			"the snapshot covers everything reachable from the context by reflection, including the spare capacity of every slice and unexported struct fields; identity of backing arrays (aliasing that is never written) is not observed",
 			"family 7 calls pointer-receiver methods only where the caller stored struct VALUES (elements, fields, map values, the context entry itself): there the engine has to work on a copy; a pointer-receiver method is never called on a receiver the caller stored as a pointer (*T, []*T), which may of course modify it",
 			"the methods of family 7 change only what a shallow copy of the struct protects (scalar fields, a slice field with len == cap that is appended to); a method that writes through a slice or map field would reach the caller's data from any copy and says nothing about the engine",
+			"family 8 reads fields only; no method is promoted through the nil embedded pointers (what calling one would do is the method's business)",
+			"family 9: the debug log goes to io.Discard; the sandbox only acts inside `include … sandboxed`, so the program is wrapped in one; file-based templates live in a scratch directory per case; the global debug level is reset after every case",
 			"the clause about concurrent renders follows from this property (shared data is only read) together with C02; it is not explored here",
 			"output of the date filter is not compared between the two renders (clock)",
 		},
